@@ -152,7 +152,8 @@ EditBridger(o, b) ==
      /\ UNCHANGED <<reg, online, approved, power, last, delegated, pen, totalPower, lastObs, obsExt, votes, observed, pending, effects, bonds>>
 
 \* external block height carried by the claims for nonce n (harness: the same function)
-ClaimHeight(n) == 1000 + n
+\* variant "H" is the same event as "A" reported at a different external height
+ClaimHeight(n, v) == IF v = "H" THEN 1050 + n ELSE 1000 + n
 
 LastOf(o) == IF last[o] = -1 THEN (IF lastObs >= 1 THEN lastObs - 1 ELSE 0) ELSE last[o]
 
@@ -178,7 +179,7 @@ Claim(s, b, n, v) ==
      IN /\ votes' = [votes EXCEPT ![n][v] = vs]
         /\ observed' = [observed EXCEPT ![n][v] = IF obs THEN TRUE ELSE @]
         /\ lastObs' = IF obs THEN n ELSE lastObs
-        /\ obsExt' = IF obs THEN ClaimHeight(n) ELSE obsExt   \* the external height is taken from the OBSERVED event only
+        /\ obsExt' = IF obs THEN ClaimHeight(n, v) ELSE obsExt   \* the external height is taken from the OBSERVED event only
         /\ pending' = [pending EXCEPT ![n] = IF obs THEN TRUE ELSE @]
         /\ last' = [last EXCEPT ![o] = n]
         /\ op' = this
@@ -283,7 +284,8 @@ C02_TotalPowerCoversOnline == totalPower >= OnlineSum(online, reg, power)
 C02_NoOracleTwiceInTally == \A n \in Nonce, v \in Variant, o \in Oracle : Count(votes[n][v], o) <= 1
 
 \* ---- C06 (clause: the observed external height comes from observed events only, never from a minority vote)
-C06_HeightFromObservedOnly == obsExt = (IF lastObs = 0 THEN 0 ELSE ClaimHeight(lastObs))
+C06_HeightFromObservedOnly == IF lastObs = 0 THEN obsExt = 0
+                              ELSE \E v \in Variant : observed[lastObs][v] /\ obsExt = ClaimHeight(lastObs, v)
 
 \* ---- registry sanity used by both (index agrees with records)
 IndexAgree == /\ \A o \in Oracle : reg[o] <=> bridger[o] # None
